@@ -31,7 +31,7 @@ TEXT = {
     ),
     "C03": (
         "Seeded runs of signers, a relay that duplicates / reorders / corrupts exactly one member, and a batching verifier; aux and batch coefficients come from the RNG seam (uniform and edge). Signatures are compared byte for byte with a BIP340 transcription on secp256k1, verify_ with the reference verdict, batch_verify_ with the conjunction of singles for sizes 1..32 on both sides of the Bos-Coster switch.",
-        "Trusted: btcsim/ref/bip340.py over ref/ec.py. Invalid batches carry one independently wrong member (never correlated errors). Other curves: sign-then-verify and verdict laws only.",
+        "Trusted: btcsim/ref/bip340.py over ref/ec.py. Invalid batches carry one independently wrong member under any coefficient draw, or two members with swapped s values under UNIFORM coefficient draws only (DESIGN 10.7). Other curves: sign-then-verify and verdict laws only.",
         "deterministic simulation: relay faults (dup, reorder, one corrupted member), RNG-seam edge draws for aux and batch coefficients; reference model = BIP340 transcription",
         "DESIGN.md 3 (W2), 4 (C03)",
     ),
